@@ -12,6 +12,8 @@ import SJ.Props.C01Ap
 #print axioms SJ.Props.C01Iff.c02_value_is_canon
 #print axioms SJ.Props.C01Iff.c19_skip_language
 #print axioms SJ.Props.C01Ap.c01_ap_conservative
+#print axioms SJ.Props.C01Ap.c01_ap_conservative_cst
+#print axioms SJ.Props.C01Ap.c01_ap_complete_tokenfree
 #print axioms SJ.Props.C01Ap.c01_ap_accepts_iff_tokenfree
 #print axioms SJ.Props.C01Ap.c01_ap_number_from_str
 #print axioms SJ.Props.C01Ap.c01_ap_token_object
